@@ -219,6 +219,30 @@ fn cmd_check(id: &str, tier: Tier) -> i32 {
             }
         }
     }
+    // thorough tier: the unsafe-code containers are also replayed under Miri
+    if tier == Tier::Thorough && total.violations.is_empty() && std::env::var_os("VERIF_NO_MIRI").is_none() {
+        if let Some((n, max_tape)) = match id {
+            "C17" => Some((96, 260)),
+            "C18" => Some((36, 1500)),
+            "C19" => Some((64, 700)),
+            _ => None,
+        } {
+            match run_miri_tier(id, n, max_tape, seed) {
+                Ok((histories, nontrivial, vio)) => {
+                    per_stage.insert(
+                        "miri".to_string(),
+                        serde_json::json!({"histories": histories, "nontrivial": nontrivial, "flags": "-Zmiri-disable-isolation (validation, Stacked Borrows and leak check on)"}),
+                    );
+                    total.evaluations += histories;
+                    total.violations.extend(vio);
+                }
+                Err(e) => {
+                    println!("INCONCLUSIVE property={id} miri tier: {e}");
+                    return 2;
+                }
+            }
+        }
+    }
     rules.dedup_by(|a, b| a.split("] ").nth(1) == b.split("] ").nth(1));
     let meta = EvidenceMeta {
         property: id,
@@ -257,6 +281,108 @@ fn cmd_check(id: &str, tier: Tier) -> i32 {
         }
         1
     }
+}
+
+/// Generates `n` tapes, splits them over up to 12 parallel `cargo +nightly miri run`
+/// processes (crate harness/miri) and reports any Undefined Behaviour / model mismatch.
+fn run_miri_tier(id: &str, n: usize, max_tape: usize, seed: u64) -> Result<(u64, u64, Vec<ViolationRecord>), String> {
+    use proptest::strategy::{Strategy, ValueTree};
+    let root = vcore::runner::verif_root();
+    let work = root.join("target-miri").join(format!("run-{id}-{}", std::process::id()));
+    let _ = std::fs::remove_dir_all(&work);
+    std::fs::create_dir_all(&work).map_err(|e| e.to_string())?;
+    let mut b = [11u8; 32];
+    b[..8].copy_from_slice(&seed.to_le_bytes());
+    let mut runner = proptest::test_runner::TestRunner::new_with_rng(
+        proptest::test_runner::Config::default(),
+        proptest::test_runner::TestRng::from_seed(proptest::test_runner::RngAlgorithm::ChaCha, &b),
+    );
+    let strat = proptest::collection::vec(proptest::num::u16::ANY, max_tape / 3..=max_tape);
+    let parts = 12usize.min(n.max(1));
+    let mut files: Vec<(std::path::PathBuf, Vec<Vec<u16>>)> = (0..parts).map(|k| (work.join(format!("part-{k}.txt")), vec![])).collect();
+    for i in 0..n {
+        let t = strat.new_tree(&mut runner).map_err(|e| e.to_string())?.current();
+        files[i % parts].1.push(t);
+    }
+    for (path, tapes) in &files {
+        let text: String = tapes
+            .iter()
+            .map(|t| t.iter().map(|v| v.to_string()).collect::<Vec<_>>().join(" "))
+            .collect::<Vec<_>>()
+            .join("\n");
+        std::fs::write(path, text).map_err(|e| e.to_string())?;
+    }
+    let crate_dir = root.join("harness").join("miri");
+    // build once (also builds the Miri sysroot on first use), then run the parts in parallel
+    let build = std::process::Command::new("cargo")
+        .current_dir(&crate_dir)
+        .args(["+nightly", "miri", "run", "-q", "--", "/dev/null", id])
+        .env("RUSTFLAGS", "--cap-lints warn")
+        .env("MIRIFLAGS", "-Zmiri-disable-isolation")
+        .output()
+        .map_err(|e| format!("cannot start cargo miri: {e}"))?;
+    if !String::from_utf8_lossy(&build.stdout).contains("MIRI-OK") {
+        return Err(format!(
+            "cargo miri does not run: {}",
+            String::from_utf8_lossy(&build.stderr).lines().rev().take(8).collect::<Vec<_>>().join(" | ")
+        ));
+    }
+    let children: Vec<_> = files
+        .iter()
+        .map(|(path, _)| {
+            std::process::Command::new("cargo")
+                .current_dir(&crate_dir)
+                .args(["+nightly", "miri", "run", "-q", "--"])
+                .arg(path)
+                .arg(id)
+                .env("RUSTFLAGS", "--cap-lints warn")
+                .env("MIRIFLAGS", "-Zmiri-disable-isolation")
+                .stdout(std::process::Stdio::piped())
+                .stderr(std::process::Stdio::piped())
+                .spawn()
+        })
+        .collect();
+    let mut histories = 0u64;
+    let mut nontrivial = 0u64;
+    let mut vio = vec![];
+    for (child, (path, tapes)) in children.into_iter().zip(files.iter()) {
+        let out = child.map_err(|e| e.to_string())?.wait_with_output().map_err(|e| e.to_string())?;
+        let stdout = String::from_utf8_lossy(&out.stdout).to_string();
+        let stderr = String::from_utf8_lossy(&out.stderr).to_string();
+        if let Some(l) = stdout.lines().find(|l| l.starts_with("MIRI-OK")) {
+            for tok in l.split_whitespace() {
+                if let Some(v) = tok.strip_prefix("histories=") {
+                    histories += v.parse::<u64>().unwrap_or(0);
+                }
+                if let Some(v) = tok.strip_prefix("nontrivial=") {
+                    nontrivial += v.parse::<u64>().unwrap_or(0);
+                }
+            }
+            continue;
+        }
+        let ub = stderr.lines().find(|l| l.starts_with("error: Undefined Behavior") || l.starts_with("error: memory leaked") || l.starts_with("error:"));
+        let model = stdout.lines().find(|l| l.starts_with("MIRI-VIOLATION"));
+        let (sig, detail) = match (model, ub) {
+            (Some(m), _) => ("miri-run:model-mismatch".to_string(), m.to_string()),
+            (None, Some(u)) => (
+                format!("miri:{}", u.chars().take(110).collect::<String>()),
+                stderr.lines().skip_while(|l| !l.starts_with("error")).take(30).collect::<Vec<_>>().join("\n"),
+            ),
+            (None, None) => return Err(format!("miri part {} ended without a verdict: {}", path.display(), stderr.lines().rev().take(6).collect::<Vec<_>>().join(" | "))),
+        };
+        vio.push(ViolationRecord {
+            property: id.to_string(),
+            stage: "miri".to_string(),
+            signature: sig,
+            detail: format!("{detail}\n(one of the {} histories in this part; replay: cd harness/miri && RUSTFLAGS='--cap-lints warn' MIRIFLAGS=-Zmiri-disable-isolation cargo +nightly miri run -- <file with the tape below on one line> {id})", tapes.len()),
+            description: format!("tapes of the failing part: {:?}", tapes.iter().map(|t| t.len()).collect::<Vec<_>>()),
+            tape: tapes.first().cloned().unwrap_or_default(),
+            case: None,
+            profile: profile_name().to_string(),
+        });
+    }
+    let _ = std::fs::remove_dir_all(&work);
+    Ok((histories, nontrivial, vio))
 }
 
 fn fuzz_target_for(id: &str) -> Option<(&'static str, u64)> {
@@ -501,6 +627,25 @@ fn main() {
         }
         Some("part") => cmd_part(&args[2], &args[3], args[4].parse().unwrap(), args[5].parse().unwrap()),
         Some("replay") => cmd_replay(&args[2]),
+        Some("tapes") => {
+            // vrun tapes <n> <max_len> <seed>: n generated tapes, one per line (Miri tier input)
+            use proptest::strategy::{Strategy, ValueTree};
+            let n: usize = args[2].parse().unwrap();
+            let max: usize = args[3].parse().unwrap();
+            let seed: u64 = args[4].parse().unwrap();
+            let mut b = [9u8; 32];
+            b[..8].copy_from_slice(&seed.to_le_bytes());
+            let mut runner = proptest::test_runner::TestRunner::new_with_rng(
+                proptest::test_runner::Config::default(),
+                proptest::test_runner::TestRng::from_seed(proptest::test_runner::RngAlgorithm::ChaCha, &b),
+            );
+            let strat = proptest::collection::vec(proptest::num::u16::ANY, max / 3..=max);
+            for _ in 0..n {
+                let t = strat.new_tree(&mut runner).unwrap().current();
+                println!("{}", t.iter().map(|v| v.to_string()).collect::<Vec<_>>().join(" "));
+            }
+            0
+        }
         Some("show") => cmd_show(&args[2], args.get(3).and_then(|s| s.parse().ok()).unwrap_or(3)),
         Some("stats") => cmd_stats(&args[2], args.get(3).and_then(|s| s.parse().ok()).unwrap_or(2000)),
         _ => {
